@@ -292,6 +292,7 @@ type vpC20Case struct {
 	initHost   string
 	creds      []vpC20Cred
 	disableNorm int // 0 no, 1 Client.DisableHeaderNamesNormalizing, 2 req.Header.DisableNormalizing
+	fromWire    int // api 0: 0 headers set through the setters, 1 headers parsed from wire bytes (RequestHeader.Read, as a proxy forwarding a received request does), 2 parsed and then CopyTo'd into the request that is sent
 	plan       []vpC20Hop
 }
 
@@ -305,7 +306,7 @@ func (c *vpC20Case) url() string {
 
 func (c *vpC20Case) String() string {
 	var sb strings.Builder
-	fmt.Fprintf(&sb, "api=%d max=%d %s body=%d norm=%d url=%s creds=[", c.api, c.max, c.method, c.bodyKind, c.disableNorm, c.url())
+	fmt.Fprintf(&sb, "api=%d max=%d %s body=%d norm=%d fromwire=%d url=%s creds=[", c.api, c.max, c.method, c.bodyKind, c.disableNorm, c.fromWire, c.url())
 	for _, cr := range c.creds {
 		fmt.Fprintf(&sb, "%s/%d ", cr.name, cr.how)
 	}
@@ -357,6 +358,7 @@ func vpC20GenCase(t *rapid.T) *vpC20Case {
 		if rapid.IntRange(0, 9).Draw(t, "disableNorm") == 0 {
 			c.disableNorm = rapid.IntRange(1, 2).Draw(t, "disableNormHow")
 		}
+		c.fromWire = rapid.SampledFrom([]int{0, 0, 0, 1, 1, 2}).Draw(t, "fromWire")
 		for i, n := range names {
 			cr := vpC20Cred{secret: "vpS3CRET" + strconv.Itoa(i) + "x"}
 			cr.name = vpC20Spelling(t, n)
@@ -441,23 +443,51 @@ func vpC20Exec(c *vpC20Case) (msg string, recs []vpC20Rec, err error) {
 		if c.disableNorm == 2 {
 			req.Header.DisableNormalizing()
 		}
-		req.SetRequestURI(url)
-		req.Header.SetMethod(c.method)
-		for _, cr := range c.creds {
-			secrets = append(secrets, cr.secret)
-			switch cr.how {
-			case 0:
-				req.Header.Set(cr.name, "k="+cr.secret)
-			case 1:
-				req.Header.Add(cr.name, "k="+cr.secret)
-				req.Header.Add(cr.name, "k2="+cr.secret+"b")
-			case 2:
-				req.Header.SetBytesKV([]byte(cr.name), []byte("k="+cr.secret))
-			default:
-				req.Header.SetCookie("k", cr.secret)
+		if c.fromWire != 0 {
+			// the caller forwards a request it received: its header was parsed from wire bytes
+			var wire strings.Builder
+			wire.WriteString(c.method + " /received HTTP/1.1\r\nHost: received.example\r\n")
+			for _, cr := range c.creds {
+				secrets = append(secrets, cr.secret)
+				wire.WriteString(cr.name + ": k=" + cr.secret + "\r\n")
+				if cr.how == 1 {
+					wire.WriteString(cr.name + ": k2=" + cr.secret + "b\r\n")
+				}
 			}
+			wire.WriteString("X-Harmless: harmless-value\r\n\r\n")
+			if c.fromWire == 2 {
+				var recv Request
+				if c.disableNorm == 2 {
+					recv.Header.DisableNormalizing()
+				}
+				if rerr := recv.Header.Read(bufio.NewReader(strings.NewReader(wire.String()))); rerr != nil {
+					return "", nil, fmt.Errorf("harness: cannot parse its own request header: %w", rerr)
+				}
+				recv.CopyTo(req)
+			} else if rerr := req.Header.Read(bufio.NewReader(strings.NewReader(wire.String()))); rerr != nil {
+				return "", nil, fmt.Errorf("harness: cannot parse its own request header: %w", rerr)
+			}
+			req.SetRequestURI(url)
+			req.Header.SetMethod(c.method)
+		} else {
+			req.SetRequestURI(url)
+			req.Header.SetMethod(c.method)
+			for _, cr := range c.creds {
+				secrets = append(secrets, cr.secret)
+				switch cr.how {
+				case 0:
+					req.Header.Set(cr.name, "k="+cr.secret)
+				case 1:
+					req.Header.Add(cr.name, "k="+cr.secret)
+					req.Header.Add(cr.name, "k2="+cr.secret+"b")
+				case 2:
+					req.Header.SetBytesKV([]byte(cr.name), []byte("k="+cr.secret))
+				default:
+					req.Header.SetCookie("k", cr.secret)
+				}
+			}
+			req.Header.Set("X-Harmless", "harmless-value")
 		}
-		req.Header.Set("X-Harmless", "harmless-value")
 		switch c.bodyKind {
 		case 1:
 			req.SetBodyString("vp-body-bytes")
@@ -602,6 +632,9 @@ func TestVP_C20_RedirectCredentials(t *testing.T) {
 			cls += "/toomany"
 		}
 		api := [...]string{"DoRedirects", "Get", "GetTimeout", "GetDeadline", "Post"}[c.api]
+		if c.fromWire != 0 {
+			api += "(header-from-wire)"
+		}
 		vpCase(api+"/"+cls, left && credsFirst, c.String(), func() string {
 			return fmt.Sprintf("%s => %d requests, err=%v", c.String(), len(recs), err)
 		})
